@@ -12,8 +12,8 @@ import (
 type realLRU struct{ l *storage.VerifLRU }
 
 func (r realLRU) Set(key, id uint64, dirty bool) bool { return r.l.Set(key, id, dirty) }
-func (r realLRU) Get(key uint64) (uint64, bool, bool)  { return r.l.Get(key) }
-func (r realLRU) SetDirty(key uint64, d bool) bool     { return r.l.SetDirty(key, d) }
+func (r realLRU) Get(key uint64) (uint64, bool, bool) { return r.l.Get(key) }
+func (r realLRU) SetDirty(key uint64, d bool) bool    { return r.l.SetDirty(key, d) }
 func (r realLRU) State() ([]uint64, []uint64, []bool, int, int) {
 	return r.l.State()
 }
